@@ -171,7 +171,43 @@ def fit_cases(draw):
             case[key] = real_plane_coef(L, scan[0], scan[1], draw(_UNIT), draw(_UNIT), draw(_FRAC))
     case["data_dtype"] = draw(st.sampled_from(["float64", "float64", "float32"]))
     case["fo_mask"] = draw(st.sampled_from(["default", "all_true"]))
+    case["positions"] = draw(probe_positions_desc())
     return case
+
+
+@st.composite
+def probe_positions_desc(draw):
+    """None (positions inferred from the dataset) or explicit probe positions: the index grid itself or
+    an invertible affine image of it (scan step 1..4 units per axis, any rotation, offset within +-20),
+    handed over as float32/float64 tensor, ndarray or nested list, flat (N, 2) or gridded (a, b, 2).
+    A plane over the scan indices is a plane over any such positions, with the same values."""
+    which = draw(st.sampled_from(["none", "index", "affine", "affine"]))
+    if which == "none":
+        return None
+    d = {
+        "form": draw(st.sampled_from(["tensor32", "tensor64", "ndarray", "list"])),
+        "layout": draw(st.sampled_from(["flat", "grid"])),
+        "scale": [1.0, 1.0],
+        "angle": 0.0,
+        "offset": [0.0, 0.0],
+    }
+    if which == "affine":
+        step = st.one_of(st.sampled_from([1.0, 2.0, 4.0, 1.5]), st.floats(1.0, 4.0, allow_nan=False))
+        d["scale"] = [draw(step), draw(step)]
+        d["angle"] = draw(st.one_of(st.sampled_from([0.0, 1.5707963267948966, 0.3]), st.floats(-3.141592653589793, 3.141592653589793, allow_nan=False)))
+        off = st.one_of(st.sampled_from([0.0, 10.0, -3.5]), st.floats(-20.0, 20.0, allow_nan=False))
+        d["offset"] = [draw(off), draw(off)]
+    return d
+
+
+def make_positions(scan, d):
+    """float64 ndarray of probe positions in the layout the description asks for."""
+    a, b = scan
+    i, j = np.meshgrid(np.arange(a, dtype=np.float64), np.arange(b, dtype=np.float64), indexing="ij")
+    th = float(d["angle"])
+    A = np.array([[np.cos(th), -np.sin(th)], [np.sin(th), np.cos(th)]]) @ np.diag([float(d["scale"][0]), float(d["scale"][1])])
+    P = np.stack([i.ravel(), j.ravel()], axis=-1) @ A.T + np.asarray(d["offset"], dtype=np.float64)
+    return P.reshape(a, b, 2) if d["layout"] == "grid" else P
 
 
 @st.composite
